@@ -68,6 +68,21 @@ func C03_value_bytes() {
 	}
 }
 
+// C03_write_bytes: the writers never panic whatever a string holds: every
+// byte string of 4 bytes (one rune of any plane, or invalid UTF-8) as a
+// string value, a map key and a list element, in SDL and JSON form.
+func C03_write_bytes() {
+	s := sym.String("s", 4)
+	sym.Budget(400_000)
+	var b bytes.Buffer
+	_ = ggql.WriteSDLValue(&b, []interface{}{s, ggql.Symbol("A")}, -1)
+	b.Reset()
+	_ = ggql.WriteJSONValue(&b, map[string]interface{}{"k": s}, 2)
+	b.Reset()
+	_ = ggql.WriteJSONValue(&b, map[string]interface{}{s: int32(1)}, -1)
+	sym.Assert(b.Len() > 0, "something is written")
+}
+
 // C03_exe_bytes: ResolveBytes over every byte string up to N bytes.
 func C03_exe_bytes() {
 	n := lenChoice("len", 4, 6)
